@@ -358,6 +358,9 @@ func (c *Ctx) ruleGuarded(rule string, pkgs []string, g guardSpec) {
 		if _, ex := g.exempt[top]; ex {
 			continue
 		}
+		if c.onlyReachedFromExempt(topFn(fn), g, 0) {
+			continue // a helper of the constructor: the object is not shared yet
+		}
 		var lf *lockFlow
 		perField := map[string]bool{}
 		for _, b := range fn.Blocks {
@@ -643,4 +646,33 @@ func (c *Ctx) buildCallIndex() {
 			}
 		}
 	}
+}
+
+// onlyReachedFromExempt: fn is unexported, never used as a value, and every one of its static call sites is in an
+// exempt function (a constructor) or in a function for which the same holds: it runs before the object is shared.
+func (c *Ctx) onlyReachedFromExempt(fn *ssa.Function, g guardSpec, depth int) bool {
+	if fn == nil || len(g.exempt) == 0 || depth > 3 || fn.Object() == nil || fn.Object().Exported() {
+		return false
+	}
+	c.buildCallIndex()
+	sites := c.callIndex[fn]
+	if len(sites) == 0 || c.usedAsValue[fn] {
+		return false
+	}
+	if fn.Signature.Recv() != nil && c.invokedNames[fn.Name()] {
+		return false
+	}
+	for _, in := range sites {
+		caller := topFn(in.Parent())
+		if _, isGo := in.(*ssa.Go); isGo {
+			return false
+		}
+		if _, ex := g.exempt[fnName(caller)]; ex {
+			continue
+		}
+		if caller == fn || !c.onlyReachedFromExempt(caller, g, depth+1) {
+			return false
+		}
+	}
+	return true
 }
